@@ -180,6 +180,38 @@ Fixpoint no_zero_size (t : ctype) : Prop :=
          end) fields
   end.
 
+(* every bit-field (at any depth) is declared with a type whose size does not exceed its alignment
+   (true of every integer type and of _Bool on x86-64: size = alignment); needed for "a bit-field's
+   storage unit lies inside the object" — `struct { T x:3; }` with sizeof(T) = 8, alignof(T) = 4
+   (long long on i386) has size 4 but an 8-byte unit *)
+Fixpoint bf_size_le_align (t : ctype) : Prop :=
+  match t with
+  | TPrim _ _ _ => True
+  | TArr item _ => bf_size_le_align item
+  | TAgg u pack fields =>
+      (fix all (fs : list (bool * ctype * Z)) : Prop :=
+         match fs with
+         | [] => True
+         | (_, ft, bits) :: fs' =>
+             (0 <= bits -> forall s a b, ft = TPrim s a b -> s <= a) /\ bf_size_le_align ft /\ all fs'
+         end) fields
+  end.
+
+(* no union among the aggregate itself and its anonymous members, at any depth (the members of
+   an anonymous union overlap by design) *)
+Fixpoint union_free (t : ctype) : Prop :=
+  match t with
+  | TPrim _ _ _ => True
+  | TArr _ _ => True
+  | TAgg u pack fields =>
+      u = false /\
+      (fix all (fs : list (bool * ctype * Z)) : Prop :=
+         match fs with
+         | [] => True
+         | (named, ft, _) :: fs' => (named = false -> union_free ft) /\ all fs'
+         end) fields
+  end.
+
 (* ---- observation function for the correspondence check "spec vs gcc":
    (size, alignment, [(byte offset, -1) | (first bit, width)]) *)
 Definition gobserve (g : glayout) : Z * Z * list (Z * Z) :=
